@@ -36,7 +36,7 @@ def expr(node, opts=None):
     if k == 'Identifier':
         ps = ident_parts(node)
         if ps[-1] == '*':
-            return {'e': 'star', 't': '.'.join(ps[:-1])}
+            return {'e': 'star', 't': ps[-2] if len(ps) > 1 else ''}
         if len(ps) == 1:
             return {'e': 'col', 't': '', 'c': ps[0]}
         if len(ps) == 2:
@@ -127,7 +127,7 @@ def from_item(node, opts=None):
         if len(ps) == 1:
             return {'f': 'table', 'db': '', 'name': ps[0], 'as': alias_of(node)}
         if len(ps) == 2:
-            return {'f': 'table', 'db': ps[0], 'name': ps[1], 'as': alias_of(node)}
+            return {'f': 'table', 'db': ps[0].lower(), 'name': ps[1], 'as': alias_of(node)}
         raise Unsupported('table name with %d parts' % len(ps))
     if k == 'Join':
         jt = ' '.join(str(node.join_type).lower().split())
